@@ -118,3 +118,45 @@ check('C06', 'exploration',
       'DESIGN.md §3 C06')
 for k in CHECKS:
     NOT_YET.pop(k, None)
+
+check('C10', 'exploration',
+      'complete enumeration of axis layouts x shapes x mask kinds against the defining sum in loops',
+      'Full product of 15 leading shapes (0..3 axes of sizes 1,2) x (D,T,K) triples with equal and unequal sizes x 9 '
+      'mask kinds (none; time-only float/boolean/all-zero/one-hot/x1000; source-axis float/boolean/all-zero) x every '
+      'valid placement of sensor_dim/time_dim/source_dim (positive and negative indices) x normalize: the result equals '
+      'the defining sum written in loops per (leading index, source) - exactly on Gaussian-integer data - is Hermitian '
+      'PSD, invariant to rescaling a normalised mask, zero for a zero mask, has the documented axis order, and the '
+      'read-only arguments are untouched; condition_covariance against its formula.',
+      'Valid layouts as documented (time-only masks have time last; source-axis masks have the observation rank).',
+      'DESIGN.md §3 C10')
+check('C11', 'exploration',
+      'complete enumeration of a problem grid with constraint / first-order optimality / closed-form oracles',
+      'Full product D{2,3,5,8} x F{1,2,5|32} x K{1,2,3} x steering {basis, generic, x1e3} x noise PSD {identity, '
+      'diagonal 1e6, generic cond 1,1e3,1e6} (x target power, reference channel each/automatic, mu {0,.5,1,100}, '
+      'scale factors): w^H a = 1, the complete first-order optimality test on a basis of the constraint null space '
+      'plus explicit competitors, LCMV constraints and closed form, Souden = MVDR*conj(a_ref), WMWF as exact minimiser '
+      '(normal-equation residual) and rank-one closed form, scale invariances, mu=0 == Souden, automatic reference '
+      'maximises the library criterion recomputed in loops.',
+      'Tolerances scale with the known condition number of the atoms.',
+      'DESIGN.md §3 C11')
+check('C12', 'exploration',
+      'complete enumeration of a problem grid with a full probe set per case',
+      'Full product D{2,3,5,8} x leading {(),(3,),(2,3)} x target {rank-1, rank-2, full} x noise {identity, cond 1e3, '
+      '1e6} x use_eig: the GEV output SNR equals lambda_max (Cholesky whitening + eigvalsh) and no probe (basis, all '
+      'generalised eigenvectors, every vector get_bf_vector can produce incl. +ban, generic vectors) exceeds it; PCA '
+      'quotient/scalings/direction; rank-one estimates Hermitian, rank one, trace preserving, exact on rank-one '
+      'targets; BAN factor, direction/SNR unchanged, independence of |w|.',
+      'Generic-position PSD atoms with known spectrum.',
+      'DESIGN.md §3 C12')
+check('C13', 'exploration',
+      'complete enumeration of wrapper names x options x shapes; all 81 singular-bin patterns',
+      'All 13 core names x {"", "+ban"} x reference channel {default, each} / atf options x D{2,3,5} x F x 0..2 extra '
+      'leading axes: get_bf_vector equals the composition spelled by its name written with the public primitives, and '
+      'every stacked call equals the call on each slice; apply_beamforming_vector = w^H x in loops; phase_correction '
+      'per leading index (aligned consecutive bins, magnitudes, input untouched, sequential-loop reference); every '
+      'assignment of {regular, rank-one, zero} to 4 bins for noise/target/both: Souden and WMWF finite, regular bins '
+      'unaffected.',
+      'One known finding (Souden with numerically rank-deficient noise PSD returns inf) in KNOWN_FINDINGS.txt.',
+      'DESIGN.md §3 C13')
+for k in CHECKS:
+    NOT_YET.pop(k, None)
